@@ -13,6 +13,10 @@ def run(tier, seed):
     _, rep_n, nn = enginecommon.histories(v, wd, "engine", d, initset="notagblock")
     # deeper histories over tag assignment / discard / query only: free-then-reallocate sequences
     _, rep_t, nt = enginecommon.histories(v, wd, "blocker", 5 if tier == "quick" else 7, ops="tags")
+    # resource loading as part of the history: use_resources / add_resource (incl. name/alias collisions whose
+    # outcome depends on the order of loading) interleaved with save / load / discard / query
+    _, rep_r, nr = enginecommon.histories(v, wd, "engine", 4 if tier == "quick" else 5, initset="res", ops="res")
+    vlib.require(rep_r["nontrivial"] > 50, "resource histories too small")
     enginecommon.any_alloc(v, wd, "blocker", 3 if tier == "quick" else 4)
     if tier == "thorough":
         enginecommon.dev_selftest(v, wd)
